@@ -1,5 +1,6 @@
 (** Extraction of the C11 specification and implementation model (ExtrOcamlBasic only; Z stays inductive). *)
-Require Import H4.ANSpec.
+Require Import H4.ANSpec H4.ANModel.
 Require Extraction.
 Require ExtrOcamlBasic.
 Extraction "../extract/gen/an_spec.ml" ANSpec.step ANSpec.init.
+Extraction "../extract/gen/an_model.ml" ANModel.mstep ANModel.hinit ANModel.m_gettagref ANModel.m_atype2tag ANModel.m_tag2atype.
